@@ -676,17 +676,19 @@ theorem C03_moveToLineUp_total_wf (S : Segmenter) (U : UData) (n pc : Nat) (lb :
     obtain ⟨ds0, hds0, hl1, hl2⟩ := lineStart_cases (buf := lb.buf) (u := u) (rest := '\n' :: (v ++ s)) hbuf
     obtain ⟨ds, de, hlu, h5, h6, h7⟩ := luLoop_ok lb.buf (n - 1) ds0 (blen u) hl1 hoff hl2
     obtain ⟨line, hline⟩ := slice_ok h5.boundary h6 h7
-    cases hnth : (gidx S line)[U.width cur - (if ds = 0 then pc else 0)]? with
+    obtain ⟨r, hr, hpr⟩ := colFind_ok S U line (U.width cur - (if ds = 0 then pc else 0)) (gidx S line)
+      (fun e he => he)
+    cases r with
     | none =>
       exact ⟨true, { lb with pos := de }, by
         rcases hds0 with ⟨h1, h2⟩ | ⟨k, h1, h2⟩ <;> subst h2 <;>
-          simp [LM.bind_apply, LM.get, LM.lift, hst, hf, hcur, hpre2, h1, hlu, hline, hnth, LM.setPos], h6, rfl⟩
-    | some ig =>
-      obtain ⟨idx, g⟩ := ig
-      have hbd := gidx_slice_boundary S hline (List.mem_of_getElem? hnth)
+          simp [LM.bind_apply, LM.get, LM.lift, hst, hf, hcur, hpre2, h1, hlu, hline, hr, LM.setPos], h6, rfl⟩
+    | some idx =>
+      obtain ⟨g, hg⟩ := hpr idx rfl
+      have hbd := gidx_slice_boundary S hline hg
       exact ⟨true, { lb with pos := ds + idx }, by
         rcases hds0 with ⟨h1, h2⟩ | ⟨k, h1, h2⟩ <;> subst h2 <;>
-          simp [LM.bind_apply, LM.get, LM.lift, hst, hf, hcur, hpre2, h1, hlu, hline, hnth, LM.setPos], hbd, rfl⟩
+          simp [LM.bind_apply, LM.get, LM.lift, hst, hf, hcur, hpre2, h1, hlu, hline, hr, LM.setPos], hbd, rfl⟩
 
 /-- `move_to_line_down`: total, boundary, text untouched -/
 theorem C03_moveToLineDown_total_wf (S : Segmenter) (U : UData) (n pc : Nat) (lb : LB) (h : WF lb) :
@@ -723,13 +725,14 @@ theorem C03_moveToLineDown_total_wf (S : Segmenter) (U : UData) (n pc : Nat) (lb
     have hlen : lb.len = blen lb.buf := rfl
     rcases hls0 with ⟨g1, rfl⟩ | ⟨k, g1, rfl⟩ <;> rcases hde0c with ⟨f1, rfl⟩ | ⟨w, f1, rfl⟩ <;>
       simp only [LM.bind_apply, LM.get, LM.lift, hst, hsf, hf, hcur, hs2, hlen, g1, f1, hld, hline] <;>
-      (generalize hnth : (gidx S line)[(_ : Nat)]? = o
-       cases o with
+      (generalize hcf : LB.colFind U line _ (gidx S line) = o
+       obtain ⟨r, rfl, hpr⟩ := colFind_ok' S hcf (fun e he => he)
+       cases r with
        | none => exact ⟨true, { lb with pos := de }, by simp [LM.bind_apply, LM.setPos], h6, rfl⟩
-       | some ig =>
-         obtain ⟨idx, g⟩ := ig
+       | some idx =>
+         obtain ⟨g, hg⟩ := hpr idx rfl
          exact ⟨true, { lb with pos := ds + idx }, by simp [LM.bind_apply, LM.setPos],
-           gidx_slice_boundary S hline (List.mem_of_getElem? hnth), rfl⟩)
+           gidx_slice_boundary S hline hg, rfl⟩)
 
 /-- `transpose_chars`: total (the `unwrap()` of the inner `delete(1)` is never reached with `None`) -/
 theorem C03_transposeChars_total_wf (S : Segmenter) (U : UData) (lb : LB) (h : WF lb) :
